@@ -155,6 +155,9 @@ def check_evidence(rec):
         prev = sh[t - 1]
         b0 = 0.0 if t == 1 else h["beta"][t - 2]
         b1 = h["beta"][t - 1]
+        if sh[t]["beta"] is not None and sh[t]["beta"] != b1:
+            # the ratio is recorded for beta_{t-1} -> b1 but the particles were moved to another temperature
+            out.append(("C08/ratio-recorded-for-another-step-than-the-one-taken", {"t": t, "recorded_beta": b1, "population_beta": sh[t]["beta"]}))
         a = _a(prev)
         logu = [(b1 - b0) * v for v in a]
         lr = ref.log_mean_exp(logu)
@@ -171,4 +174,47 @@ def check_evidence(rec):
         out.append(("C08/sum-of-ratios", {"got": res["log_evidence"], "ref": float(tot), "ratios": h["log_norm_ratio"]}))
     if not ref.close(res["log_evidence_error"], mp.sqrt(var), 1e-8, 1e-12):
         out.append(("C08/error-root-sum-variances", {"got": res["log_evidence_error"], "ref": float(mp.sqrt(var))}))
+    return out
+
+
+def check_resampling(rec):
+    """C09 inside the sampler loop: every probability vector the generator was handed is the normalised incremental
+    weight of the step the particles are about to take (population t-1, beta_{t-1} -> beta_t; for the enlargement to
+    n_final_samples: last population, last beta -> 1), with the requested size."""
+    out = []
+    h = rec["history"]
+    if h is None or rec["exception"] is not None or rec["result"] is None:
+        return out
+    betas = h["beta"]
+    sh = h["sample_history"]
+    if len(sh) < len(betas) + 1:
+        return out
+    N = rec["cfg"]["N"]
+    expected = []  # (label, population, b0, b1, size)
+    for t in range(1, len(betas) + 1):
+        b0 = 0.0 if t == 1 else betas[t - 2]
+        b1 = betas[t - 1]
+        if b1 == b0:
+            continue  # a zero-length step re-uses the population without drawing (C06's business)
+        expected.append((f"iteration-{t}", sh[t - 1], b0, b1, N))
+    nfinal = rec["cfg"]["opts"].get("n_final_samples")
+    if nfinal is not None and nfinal != N:
+        expected.append(("enlargement", sh[len(betas)], betas[-1] if betas else 0.0, 1.0, nfinal))
+    got = rec["p_records"]
+    if len(got) != len(expected):
+        out.append(("C09/as-run/number-of-resamplings", {"got": len(got), "expected": [e[0] for e in expected]}))
+        return out
+    for (label, pop, b0, b1, size), (n, sz, p) in zip(expected, got):
+        a = _a(pop)
+        kind = "enlargement" if label == "enlargement" else "iteration"
+        if n != len(a) or (sz if sz is not None else 1) != size:
+            out.append((f"C09/as-run/{kind}/size", {"step": label, "n": n, "size": sz, "want_n": len(a), "want_size": size}))
+            continue
+        logu = [(b1 - b0) * v if (b1 - b0) != 0 else 0.0 for v in a]
+        m = max(logu)
+        w = [mp.exp(mp.mpf(v) - m) if math.isfinite(v) else mp.mpf(0) for v in logu]
+        tot = sum(w)
+        ref_p = [float(x / tot) for x in w]
+        if any(abs(x - y) > 1e-9 for x, y in zip(p, ref_p)):
+            out.append((f"C09/as-run/{kind}/probability-vector", {"step": label, "b0": b0, "b1": b1, "got": list(p), "ref": ref_p}))
     return out
